@@ -971,6 +971,10 @@ def coerce_to_number(value, convert_all=False):
     if value is None and convert_all:
         return 0
 
+    if isinstance(value, np.generic):
+        # a numpy scalar (SLOPE, FORECAST ...) is the python number it holds
+        value = value.item()
+
     if not isinstance(value, str):
         if isinstance(value, int):
             return int(value) if convert_all else value
